@@ -922,12 +922,40 @@ impl Prop for C04 {
         let endian = if case.big_endian { Endian::Big } else { Endian::Little };
         let mut a = BinArchive::new(endian);
         let size = case.size as usize;
-        a.allocate_at_end(size);
         let init = Mix64(case.data_seed).bytes(size);
-        if size > 0 {
-            if let Err(e) = a.write_bytes(0, &init) {
-                cx.fail("setup", format!("write_bytes(0, {size} bytes) on an archive of size {size} failed: {e}"));
-                return;
+        // one archive in three (of those with >= 8 bytes) is grown to its size THROUGH A WRITER that afterwards fills it: an aligned insert of g bytes
+        // in the middle, then stream writes on the same writer into the last byte and over the whole data region - all inside the data, so all must succeed
+        let g = 4 * (1 + (case.data_seed as usize >> 4) % 3);
+        if case.data_seed % 3 == 0 && size >= g + 4 {
+            let p = 4 * ((case.data_seed as usize >> 8) % ((size - g) / 4));
+            a.allocate_at_end(size - g);
+            let r = cx.call(|| {
+                let mut w = BinArchiveWriter::new(&mut a, p);
+                w.allocate(g, case.data_seed & 8 != 0).map_err(|e| format!("allocate({g}) at cursor {p} of a {}-byte archive: {e}", size - g))?;
+                w.seek(size - 1);
+                w.write_u8(init[size - 1]).map_err(|e| format!("write_u8 at {} after the writer grew the archive from {} to {size} bytes: {e}", size - 1, size - g))?;
+                if w.tell() != size || w.size() != size || w.length() != size {
+                    return Err(format!("after growing to {size} bytes and writing the last byte: cursor {}, size() {}, length() {}", w.tell(), w.size(), w.length()));
+                }
+                w.seek(0);
+                w.write_bytes(&init).map_err(|e| format!("write_bytes of {size} bytes at 0 after the writer grew the archive to {size} bytes: {e}"))?;
+                Ok::<(), String>(())
+            });
+            match r {
+                Some(Ok(())) => cx.label("grown-and-filled-through-one-writer"),
+                Some(Err(e)) => {
+                    cx.fail("in-range-stream-write-after-writer-allocate", e);
+                    return;
+                }
+                None => return,
+            }
+        } else {
+            a.allocate_at_end(size);
+            if size > 0 {
+                if let Err(e) = a.write_bytes(0, &init) {
+                    cx.fail("setup", format!("write_bytes(0, {size} bytes) on an archive of size {size} failed: {e}"));
+                    return;
+                }
             }
         }
         let mut m = Model { be: case.big_endian, data: init, ..Default::default() };
